@@ -108,6 +108,8 @@ class Engine:
             self.communicator = comm.SimCommunicator(self.loop)
             for kind in self.opts.get('subscribe_timeouts') or []:
                 self.communicator.subscribe_timeouts.add(kind)
+            for kind in self.opts.get('unsubscribe_timeouts') or []:
+                self.communicator.unsubscribe_timeouts.add(kind)
             if self.opts.get('broadcast_fault'):
                 # the k-th state_changed announcement fails with one of the errors the process tolerates
                 index, name = self.opts['broadcast_fault']
@@ -281,6 +283,10 @@ class Engine:
         self.world.rec('notify', programs.label(proc), event, programs.freeze(args))
         for index in self.pending_on.pop((event, count), []):
             self.fire(index, 'listener')
+        if self.opts.get('listener_closes') and event in ('finished', 'excepted', 'killed') and proc is self.proc:
+            # a listener that releases the process's resources as soon as it is told about the end: closing twice is harmless
+            proc.close()
+            self.world.rec('listener_closed_process', event)
         if self.opts.get('oneshot') and event in ('finished', 'excepted', 'killed'):
             # a one-shot listener: removes itself from inside the terminal notification
             proc.remove_process_listener(self.listener)
